@@ -1,0 +1,23 @@
+//go:build verif
+
+// Verification hook (add-only, compiled only with -tags verif): exports the
+// unexported archive writer/reader of this package so that the /verif harness
+// (h-snap, property C20) can produce and read plain (not gzip-wrapped) archives
+// without a live Raft. Thin wrappers only; no behaviour of its own.
+package snapshot
+
+import (
+	"io"
+
+	"github.com/hashicorp/raft"
+)
+
+// VerifWrite is archive.go write.
+func VerifWrite(out io.Writer, metadata *raft.SnapshotMeta, snap io.Reader) error {
+	return write(out, metadata, snap)
+}
+
+// VerifRead is archive.go read.
+func VerifRead(in io.Reader, metadata *raft.SnapshotMeta, snap io.Writer) error {
+	return read(in, metadata, snap)
+}
